@@ -28,7 +28,7 @@ ASSUMPTIONS = ['SMT: an arity is rendered in canonical decimal (regex 0|[1-9][0-
                'z3 queries carry a length bound of 12 on names; the cvc5 binary answers them unbounded']
 OUTSIDE = ['histories longer than stated', 'scripts outside the pool']
 BOUNDS = {'quick': 'all histories of 2 operations and histories of 3 operations after 12 selected prefixes (9 operation kinds, symbolic overwrite flags, 5 registration arities, symbolic fact value); SMT queries unbounded (cvc5) / len<=12 (z3)',
-          'thorough': 'histories of 4 operations, partitioned on the first two'}
+          'thorough': 'all histories of 3 operations; histories of 4 operations after 12 selected prefixes'}
 EXPLANATION = ('CrossHair executes load/register/assert/clear histories with symbolic choices on the real engine and compares a battery of '
                'queries after every step with a list-of-definitions model; the key-collision questions are decided by SMT solvers over '
                'string terms translated from engine.py\'s own f-strings')
@@ -309,7 +309,7 @@ class KeyQueries(ch.DirectUnit):
 
 def units(tier, seed):
     us = []
-    steps = 3 if tier == 'quick' else 4
+    steps = 3
     depth = 2
     quick_prefixes = [('load0', 'load1'), ('load1', 'load0'), ('register', 'load1'), ('load1', 'register'), ('load1', 'assert'), ('assert', 'load1'),
                       ('loadfail', 'load1'), ('load3', 'load4'), ('load4', 'load3'), ('clear', 'load1'), ('load1', 'clear'), ('register', 'register')]
@@ -329,6 +329,11 @@ def units(tier, seed):
             us.append(dict(id='a.2step.' + OPS[op], kind='a', steps=2, fixed={'op0': op}, ob='C08.a', timeout=300, weight=60,
                            bounds='history of 2 operations starting with %s' % OPS[op]))
         combos = [c for c in combos if (OPS[c[0][0]], OPS[c[0][1]]) in quick_prefixes]
+    if tier != 'quick':
+        # thorough: every history of 3 operations (above) and histories of 4 operations after the selected prefixes
+        for combo, fx, tag in [c for c in combos if (OPS[c[0][0]], OPS[c[0][1]]) in quick_prefixes]:
+            us.append(dict(id='a.4step.' + '-'.join(OPS[c] for c in combo) + tag, kind='a', steps=4, fixed=fx, ob='C08.a', timeout=2400, weight=600,
+                           bounds='history of 4 operations starting with %s' % [OPS[c] for c in combo]))
     for combo, fx, tag in combos:
         us.append(dict(id='a.' + '-'.join(OPS[c] for c in combo) + tag, kind='a', steps=steps, fixed=fx, ob='C08.a',
                        timeout=300 if tier == 'quick' else 1500, weight=60,
